@@ -13,6 +13,7 @@ fn plan(property: &str) -> BatchPlan {
     match property {
         "C12" => BatchPlan { quick_runs: 200_000, thorough_runs: 10_000_000 },
         "C03" => BatchPlan { quick_runs: 1_000_000, thorough_runs: 30_000_000 },
+        "C04" => BatchPlan { quick_runs: 500_000, thorough_runs: 20_000_000 },
         "C14" => BatchPlan { quick_runs: 300_000, thorough_runs: 10_000_000 },
         "C06" | "C15" | "C02" => BatchPlan { quick_runs: 300_000, thorough_runs: 10_000_000 },
         _ => BatchPlan { quick_runs: 5_000, thorough_runs: 500_000 },
@@ -21,7 +22,7 @@ fn plan(property: &str) -> BatchPlan {
 
 fn main() {
     let (r06, r15, r02) = (rib::RibHistories { prop: "C06" }, rib::RibHistories { prop: "C15" }, rib::RibHistories { prop: "C02" });
-    let checks: Vec<&dyn Check> = vec![&c12_rpki::RpkiHistories, &c14_policy::PolicyHistories, &r06, &r15, &r02, &wire::BgpStreams, &wire::RtrStreams, &wire::BfdDatagrams];
+    let checks: Vec<&dyn Check> = vec![&c12_rpki::RpkiHistories, &c14_policy::PolicyHistories, &r06, &r15, &r02, &wire::BgpStreams, &wire::RtrStreams, &wire::BfdDatagrams, &wire::CodecFixedPoint];
     let args: Vec<String> = std::env::args().skip(1).collect();
     std::process::exit(main_with(&checks, &plan, &args));
 }
